@@ -134,7 +134,7 @@ def layout(rng, toks, style):
             if style == 'tight' and not needs_space(a, b):
                 sep = ''
             elif style == 'comments' and p < 0.25:
-                sep = rng.choice([' ', '\n', '']) + '#' + rng.choice(['', ' c', " it's a \"comment\" ; = | (", ' é€']) + '\n' + rng.choice(['', '  '])
+                sep = rng.choice([' ', '\n', '']) + '#' + rng.choice(['', ' c', " it's a \"comment\" ; = | (", ' é€', ' \U0001f600 astral \U00010000', ' \uffff\ufffe\x0b\x0c\r', '\t#\x00\x7f']) + '\n' + rng.choice(['', '  '])
             elif p < 0.5:
                 sep = ' '
             elif p < 0.7:
@@ -149,7 +149,7 @@ def layout(rng, toks, style):
                 sep = '  '
             out.append(sep)
         out.append(t)
-    lead = rng.choice(['', '\n', '# header comment\n', '  '])
+    lead = rng.choice(['', '\n', '# header comment\n', '  ', '# \U0001f980\n'])
     trail = rng.choice(['', '\n', '\n# trailing comment\n', ' '])
     return lead + ''.join(out) + trail
 
